@@ -201,7 +201,20 @@ def handle : Handler
     else
       let bad := out.filter (fun t => !expect.contains t)
       s!"VIOL add-vs-remove-same-name:{",".intercalate bad} model={" ".intercalate expect}"
-  | ["cstream", d, mode, md], out => cstreamVerdict d mode md out
+  | [kind, _d, mode, _n], out =>
+    if kind = "cclose" || kind = "rclose" then
+      -- Close / Remove while Streams wait on a not-ready connection (C16_stream_wait_ends_on_close): the model's wait
+      -- returns at the iteration that observes Shutdown from Connecting and from TransientFailure alike, with or
+      -- without a deadline, so every Stream returns at once with the closing error
+      let ends := Conn.waitLoop .inLoop false .connecting [.shutdown] = .returned 1 &&
+                  Conn.waitLoop .inLoop true .transientFailure [.connecting, .shutdown] = .returned 2
+      let expect := ["close=t", "bad=0", s!"slow={if ends then 0 else 1}", "early=0", "panic=0", "after=unavail"]
+      if out = expect then s!"OK nt b=close-while-waiting-{mode}"
+      else
+        let bad := out.filter (fun t => !expect.contains t)
+        s!"VIOL close-while-stream-waits-on-not-ready-connection:{",".intercalate bad} model={" ".intercalate expect}"
+    else if kind = "cstream" then cstreamVerdict _d mode _n out
+    else "BAD c16 line"
   | ["connrace", _seed, _n], out =>
     -- Close racing Stream on one real AdaptedClientConn (C16_conn_close_stream_safe / _closed_is_final)
     let expect := ["bad=0", "panic=0", "slow=0", "after=unavail"]
